@@ -250,6 +250,11 @@ def run_task(task: dict) -> dict:
                     res = dict(kind="ok", is_dataset=isinstance(out, MazeDataset))
                     if res["is_dataset"]:
                         res.update(cfg=canon_cfg(out.cfg), sig=sig(out), n=len(out))
+                        if c.get("spoil_result"):
+                            # the caller owns what it was given: it thins and reorders the dataset in place (after it was observed here)
+                            out.mazes.reverse()
+                            if len(out.mazes) > 1: out.mazes.pop()
+                            out.update_self_config()
                 except Exception as e:
                     res = dict(kind=_exc_name(e), msg=str(e)[:200])
             warned = any("config mismatch" in str(w.message) for w in wl)
@@ -354,6 +359,10 @@ def build_tasks(ctx, pristine: dict[str, bytes], deep: bool) -> list[dict]:
         add(name, [dict(fault=dict(type="absent")), call, call], "absent")
         add(name, [dict(fault=dict(type="trunc", off=0)), call], "empty")
         add(name, [dict(fault=dict(type="pristine")), call], "intact")
+        # what a request returns is edited in place by its caller; later requests (file untouched) must not see those edits
+        spoil = dict(call=dict(spoil_result=True))
+        add(name, [dict(fault=dict(type="absent")), spoil, spoil, spoil, call], "intact")
+        add(name, [dict(fault=dict(type="pristine")), spoil, call, spoil, call], "intact")
         # --- truncation
         if deep and name in ("dfs3", "big2", "wil4f"):
             offs = range(n)
@@ -632,7 +641,7 @@ def _short(task):
         if "fault" in s:
             f = s["fault"]; out.append(f["type"] + "".join(f"@{f[k]}" for k in ("off",) if k in f) + (f"^{f['mask']}" if "mask" in f else ""))
         else:
-            c = s["call"]; out.append("call" + (f"[cut {c['cut']}]" if c.get("cut") else "") + ("[flags]" if c.get("flags") else ""))
+            c = s["call"]; out.append("call" + (f"[cut {c['cut']}]" if c.get("cut") else "") + ("[flags]" if c.get("flags") else "") + ("[the caller then edits the returned dataset in place]" if c.get("spoil_result") else ""))
     return " > ".join(out)
 
 
